@@ -18,3 +18,8 @@ def run(ctx):
     cov["states"] = (cov.get("states") or 0) + (t.get("states") or 0)
     cov["transitions"] = (cov.get("transitions") or 0) + (t.get("transitions") or 0)
     return cov
+
+
+def replay(ctx, path):
+    from engines import replayer
+    return replayer.replay(ctx, path)
